@@ -423,6 +423,9 @@ func Ge(a, b *Term) *Term { return cmpInt("<=", b, a) }
 // uninterpreted functions (see DESIGN §3.4).
 var Abstract = false
 
+// AbstractConst extends the abstraction to products/quotients with a constant operand.
+var AbstractConst = false
+
 func fpFold2(op string, a, b *Term) (*Term, bool) {
 	if a.Op != "fp" || b.Op != "fp" {
 		return nil, false
@@ -445,9 +448,36 @@ func FAdd(a, b *Term) *Term {
 	if r, ok := fpFold2("fp.add", a, b); ok {
 		return r
 	}
+	// x + (+0) under RNE: x for every x except ±0, which give +0 (exact IEEE identity)
+	pz := FPConst(0)
+	if a == pz {
+		return Ite(isNegZero(b), pz, b)
+	}
+	if b == pz {
+		return Ite(isNegZero(a), pz, a)
+	}
 	a, b = canon(a, b)
 	return mk("fp.add", SFP, "", nil, 0, a, b)
 }
+
+// isNegZero builds "x is -0" without arithmetic where the shape of x allows:
+// under RNE a-b = -0 iff a = -0 and b = +0; a+b = -0 iff a = b = -0.
+func isNegZero(x *Term) *Term {
+	nz := FPConst(math.Copysign(0, -1))
+	pz := FPConst(0)
+	switch x.Op {
+	case "fp.sub":
+		return And(Eq(x.Args[0], nz), Eq(x.Args[1], pz))
+	case "fp.add":
+		return And(Eq(x.Args[0], nz), Eq(x.Args[1], nz))
+	case "ite":
+		return Ite(x.Args[0], isNegZero(x.Args[1]), isNegZero(x.Args[2]))
+	case "fp":
+		return Bool(x == nz)
+	}
+	return Eq(x, nz)
+}
+
 func FSub(a, b *Term) *Term {
 	if r, ok := fpFold2("fp.sub", a, b); ok {
 		return r
@@ -470,7 +500,7 @@ func FMul(a, b *Term) *Term {
 	if b.Op == "fp" && b.FloatVal() == -1 {
 		return FNeg(a)
 	}
-	if Abstract && a.Op != "fp" && b.Op != "fp" {
+	if Abstract && (AbstractConst || (a.Op != "fp" && b.Op != "fp")) {
 		a, b = canon(a, b)
 		return mk("uf", SFP, "fmul", nil, 0, a, b)
 	}
@@ -484,7 +514,7 @@ func FDiv(a, b *Term) *Term {
 	if b.Op == "fp" && b.FloatVal() == 1 {
 		return a
 	}
-	if Abstract && a.Op != "fp" && b.Op != "fp" {
+	if Abstract && (AbstractConst || (a.Op != "fp" && b.Op != "fp")) {
 		return mk("uf", SFP, "fdiv", nil, 0, a, b)
 	}
 	return mk("fp.div", SFP, "", nil, 0, a, b)
